@@ -26,11 +26,23 @@ type verifSeed struct {
 	Name string   `json:"name"`
 	Recs [][2]int `json:"recs"`
 	Gz   int      `json:"gz"`
+	Kind string   `json:"kind,omitempty"` // "" regular file | dir: a directory | devfull: symlink to /dev/full
+}
+
+// verifSetup selects the configuration stream: the rule and the compress flag are taken from the
+// logger that newFileWriter/createOutput build for this logx.Config.
+type verifSetup struct {
+	Rotation   string `json:"rotation"`
+	MaxSize    int    `json:"maxsize"` // MB
+	MaxBackups int    `json:"maxbackups"`
+	KeepDays   int    `json:"keepdays"`
+	Compress   bool   `json:"compress"`
 }
 
 type verifEvent struct {
 	W []json.RawMessage   `json:"w,omitempty"` // [id, len, "stamp"]
 	B [][]json.RawMessage `json:"b,omitempty"` // burst: records submitted while the worker is parked
+	R []string            `json:"r,omitempty"` // restart: [rot0, now0, boundary date]: Close, then a new logger on the same file
 	D *string           `json:"d,omitempty"` // boundary date "2006-01-02" of the released clean-up
 }
 
@@ -49,6 +61,7 @@ type verifCase struct {
 	Events     []verifEvent `json:"events"`
 	EndB       string       `json:"endb"`
 	Front      *verifFront  `json:"front,omitempty"`
+	Setup      *verifSetup  `json:"setup,omitempty"`
 }
 
 // verifFront selects the second stream: records are submitted through the logx writer front-end
@@ -119,6 +132,7 @@ type verifDel struct {
 }
 
 type verifLog struct {
+	R   bool      `json:"r,omitempty"`
 	W   *int      `json:"w,omitempty"`
 	Rot bool      `json:"rot,omitempty"`
 	D   *verifDel `json:"d,omitempty"`
@@ -274,6 +288,13 @@ func verifNames(dir string) []string {
 
 func verifReadFile(path string) verifFile {
 	vf := verifFile{Name: filepath.Base(path), Runs: [][2]int{}}
+	if fi, err := os.Lstat(path); err == nil && !fi.Mode().IsRegular() {
+		vf.Gz = 78 // symlink or other special entry
+		if fi.IsDir() {
+			vf.Gz = 77
+		}
+		return vf
+	}
 	data, err := os.ReadFile(path)
 	if err != nil {
 		vf.Gz = -2
@@ -336,8 +357,6 @@ func verifWait(cond func() bool, d time.Duration) bool {
 	return true
 }
 
-var verifGzipStuck bool
-
 func verifRunCase(c verifCase) any {
 	fail := func(msg string) any { return map[string]any{"error": msg} }
 	dir, err := os.MkdirTemp("", "c19-")
@@ -359,6 +378,18 @@ func verifRunCase(c verifCase) any {
 		defer atomic.StoreUint32(&encoding, jsonEncodingType)
 	}
 	for _, s := range c.Seeds {
+		if s.Kind == "dir" {
+			if err := os.Mkdir(filepath.Join(dir, s.Name), 0o755); err != nil {
+				return fail(err.Error())
+			}
+			continue
+		}
+		if s.Kind == "devfull" {
+			if err := os.Symlink("/dev/full", filepath.Join(dir, s.Name)); err != nil {
+				return fail(err.Error())
+			}
+			continue
+		}
 		var data []byte
 		for _, r := range s.Recs {
 			if c.Front != nil {
@@ -382,17 +413,73 @@ func verifRunCase(c verifCase) any {
 	}
 
 	filename := filepath.Join(dir, c.File)
-	w := &verifRule{kind: c.Kind, cfgDays: c.Days, dir: dir, scriptNow: c.Now0, scriptRot: c.Rot0,
-		entered: make(chan struct{}), release: make(chan struct{}), tokens: make(chan *verifToken, 4096)}
-	if c.Kind == "size" {
-		r := NewSizeLimitRotateRule(filename, c.Delim, c.Days, 1, c.MaxBackups, c.Gzip).(*SizeLimitRotateRule)
-		r.maxSize = c.MaxSize
-		w.real, w.size, w.daily = r, r, &r.DailyRotateRule
-	} else {
-		r := DefaultRotateRule(filename, c.Delim, c.Days, c.Gzip).(*DailyRotateRule)
-		w.real, w.daily = r, r
+	compress := c.Compress
+	var builtSize *SizeLimitRotateRule
+	var builtDaily *DailyRotateRule
+	var ruleObs map[string]any
+	if c.Setup != nil {
+		// the configuration path: Config -> newFileWriter -> With* options -> createOutput -> rule + logger
+		options = logOptions{}
+		defer func() { options = logOptions{} }()
+		fwr, err := newFileWriter(Config{Mode: fileMode, Path: dir, Rotation: c.Setup.Rotation, MaxSize: c.Setup.MaxSize,
+			MaxBackups: c.Setup.MaxBackups, KeepDays: c.Setup.KeepDays, Compress: c.Setup.Compress})
+		if err != nil {
+			return fail(err.Error())
+		}
+		rl, ok := fwr.(*concreteWriter).infoLog.(*RotateLogger)
+		if !ok {
+			return fail("infoLog is no RotateLogger")
+		}
+		ruleObs = map[string]any{"file": filepath.Base(rl.filename), "compress": rl.compress}
+		switch r := rl.rule.(type) {
+		case *SizeLimitRotateRule:
+			cp := *r
+			builtSize = &cp
+			ruleObs["kind"], ruleObs["delim"], ruleObs["days"], ruleObs["gzip"] = "size", r.delimiter, r.days, r.gzip
+			ruleObs["maxsize"], ruleObs["maxbackups"] = r.maxSize, r.maxBackups
+		case *DailyRotateRule:
+			cp := *r
+			builtDaily = &cp
+			ruleObs["kind"], ruleObs["delim"], ruleObs["days"], ruleObs["gzip"] = "daily", r.delimiter, r.days, r.gzip
+			ruleObs["maxsize"], ruleObs["maxbackups"] = 0, 0
+		default:
+			return fail("unknown rule type")
+		}
+		fwr.Close()
+		for _, n := range []string{accessFilename, errorFilename, severeFilename, slowFilename, statFilename} {
+			os.Remove(filepath.Join(dir, n))
+		}
+		filename, compress = rl.filename, rl.compress
+		for _, sd := range c.Seeds {
+			if sd.Name == filepath.Base(filename) {
+				return fail("configuration stream cannot pre-seed the current file")
+			}
+		}
 	}
-	l, err := NewLogger(filename, w, c.Compress)
+	newRule := func(rot0, now0 string) *verifRule {
+		w := &verifRule{kind: c.Kind, cfgDays: c.Days, dir: dir, scriptNow: now0, scriptRot: rot0,
+			entered: make(chan struct{}), release: make(chan struct{}), tokens: make(chan *verifToken, 4096)}
+		switch {
+		case builtSize != nil:
+			r := *builtSize
+			w.kind, w.cfgDays = "size", r.days
+			w.real, w.size, w.daily = &r, &r, &r.DailyRotateRule
+		case builtDaily != nil:
+			r := *builtDaily
+			w.kind, w.cfgDays = "daily", r.days
+			w.real, w.daily = &r, &r
+		case c.Kind == "size":
+			r := NewSizeLimitRotateRule(filename, c.Delim, c.Days, 1, c.MaxBackups, c.Gzip).(*SizeLimitRotateRule)
+			r.maxSize = c.MaxSize
+			w.real, w.size, w.daily = r, r, &r.DailyRotateRule
+		default:
+			r := DefaultRotateRule(filename, c.Delim, c.Days, c.Gzip).(*DailyRotateRule)
+			w.real, w.daily = r, r
+		}
+		return w
+	}
+	w := newRule(c.Rot0, c.Now0)
+	l, err := NewLogger(filename, w, compress)
 	if err != nil {
 		return fail(err.Error())
 	}
@@ -406,7 +493,8 @@ func verifRunCase(c verifCase) any {
 	errs := []string{}
 
 	collect := func() {
-		// every rotation started one postRotate goroutine; wait until it stands at the gate
+		// every rotation started one postRotate goroutine; it reaches the gate (OutdatedFiles) when its
+		// compress phase is over, whether that succeeded or failed
 		verifWait(func() bool {
 			for {
 				select {
@@ -418,7 +506,7 @@ func verifRunCase(c verifCase) any {
 				break
 			}
 			return len(pending)+len(logsDeletes(logs)) >= rotations
-		}, 2*time.Second)
+		}, 5*time.Second)
 	}
 	runDelete := func(bdate string) {
 		if len(pending) == 0 {
@@ -446,13 +534,6 @@ func verifRunCase(c verifCase) any {
 	settle := func() {
 		if w.nBackup > prevBackups {
 			rotations += w.nBackup - prevBackups
-			if c.Compress && !verifGzipStuck {
-				f := w.names[len(w.names)-2]
-				if !verifWait(func() bool { return !verifExists(f) }, 3*time.Second) {
-					errs = append(errs, "gzip-timeout")
-					verifGzipStuck = true // do not wait again in this process
-				}
-			}
 			for i := len(logs) - 1; i >= 0; i-- {
 				if logs[i].W != nil {
 					logs[i].Rot = true
@@ -523,6 +604,29 @@ func verifRunCase(c verifCase) any {
 			deferred = append(deferred, *e.D)
 			continue
 		}
+		if e.R != nil {
+			if len(e.R) != 3 {
+				return fail("bad restart event")
+			}
+			if l.Close() != nil {
+				errs = append(errs, "close-error")
+			}
+			settle()
+			for len(pending) > 0 {
+				runDelete(e.R[2])
+			}
+			w = newRule(e.R[0], e.R[1])
+			if l, err = NewLogger(filename, w, compress); err != nil {
+				return fail("reopen: " + err.Error())
+			}
+			w.gated = true
+			prevBackups = w.nBackup
+			if tap != nil {
+				tap.l = l
+			}
+			logs = append(logs, verifLog{R: true})
+			continue
+		}
 		burst := e.B
 		if e.W != nil {
 			burst = [][]json.RawMessage{e.W}
@@ -558,6 +662,9 @@ func verifRunCase(c verifCase) any {
 	res := map[string]any{"log": logs, "final": final, "rotations": rotations, "errs": errs}
 	if c.Front != nil {
 		res["accepted"] = accepted
+	}
+	if ruleObs != nil {
+		res["rule"] = ruleObs
 	}
 	if closeErr != nil {
 		res["close"] = "error"
